@@ -355,6 +355,9 @@ def main():
     seen_sigs = set()
     # one report per root-cause signature: keep the smallest failing case of each
     best = {}
+    sig_count = {}
+    for f in failures:
+        sig_count[f["sig"]] = sig_count.get(f["sig"], 0) + 1
     for f in failures:
         k = f["sig"]
         if k not in best or len(json.dumps(f["case"])) < len(json.dumps(best[k]["case"])):
@@ -378,6 +381,10 @@ def main():
         if ok3 < need and hasattr(P, "self_evident") and P.self_evident(f["sig"], f["text"]):
             # the failing run's own report is the evidence (a race report naming both accesses); a schedule need not recur on replay
             f["text"] += "\n(not reproduced in %d statistical replays; the report above was produced by the generated run itself)" % tries
+        elif ok3 < need and sig_count.get(f["sig"], 0) >= getattr(P, "CORROBORATED", {}).get(f["sig"], 10 ** 9):
+            # statistical checks: the same failure was produced independently by several generated cases of this run; that stands in
+            # for a replay that depends on thread timing
+            f["text"] += "\n(not reproduced in %d statistical replays, but %d independent generated cases of this run failed the same way)" % (tries, sig_count[f["sig"]])
         elif ok3 < need:
             errors.append("failure does not replay (%d/%d, needed %d): %s\n%s" % (ok3, tries, need, path, f["text"][:1000]))
             continue
